@@ -53,7 +53,7 @@ func main() {
 	write("UsagePoolSync.lean", genUsagePoolSync())
 
 	// typed scan, cached by content hash of the scanned sources
-	h := hashTree(filepath.Join(repo, "modules", "caddyhttp"))
+	h := hashTree(repo)
 	cache := map[string]string{}
 	if *cacheFile != "" {
 		if b, err := os.ReadFile(*cacheFile); err == nil {
@@ -882,10 +882,14 @@ func isFieldType(t types.Type) bool {
 
 func genLogSites() string {
 	cfg := &packages.Config{Mode: packages.NeedName | packages.NeedSyntax | packages.NeedTypes | packages.NeedTypesInfo | packages.NeedFiles | packages.NeedImports | packages.NeedDeps, Dir: repo, Tests: false}
-	pkgs, err := packages.Load(cfg, "./modules/caddyhttp/...")
+	pkgs, err := packages.Load(cfg, "./...")
 	var sites []logSite
 	loadOK := err == nil
+	httpPkgs := map[string]bool{}
 	for _, pkg := range pkgs {
+		if strings.Contains(pkg.PkgPath, "/modules/caddyhttp") {
+			httpPkgs[pkg.Name] = true
+		}
 		if len(pkg.Errors) > 0 {
 			loadOK = false
 			fmt.Fprintln(os.Stderr, "extract: package", pkg.PkgPath, "has errors:", pkg.Errors[0])
@@ -962,15 +966,28 @@ func genLogSites() string {
 	var sb strings.Builder
 	sb.WriteString(header)
 	sb.WriteString("/-- every zap field constructor call under modules/caddyhttp/... one of whose arguments is, or is\n    computed from, an http.Request / http.Header / http.Response / cookies (typed scan, go/types):\n    (package, function, field key, kind). kind = `wrapped` (LoggableHTTPRequest/LoggableHTTPHeader with credentials\n    off by default), `wrappedcred:<expr>` (the ShouldLogCredentials expression), `headerget:<name>` (a single\n    named header value), `raw:<type>` (anything else). -/\n")
-	sb.WriteString("def logSites : List (String × String × String × String) := [\n")
-	for i, s := range sites {
-		sep := ","
-		if i == len(sites)-1 {
-			sep = ""
+	var inScope, elsewhere []logSite
+	for _, s := range sites {
+		if httpPkgs[s.pkg()] {
+			inScope = append(inScope, s)
+		} else {
+			elsewhere = append(elsewhere, s)
 		}
-		sb.WriteString(fmt.Sprintf("  (%s, %s, %s, %s)%s\n", leanStr(s.pkg()), leanStr(s.fn()), leanStr(s.key), leanStr(s.kind), sep))
 	}
-	sb.WriteString("]\n\n")
+	emit := func(name string, list []logSite) {
+		sb.WriteString("def " + name + " : List (String × String × String × String) := [\n")
+		for i, s := range list {
+			sep := ","
+			if i == len(list)-1 {
+				sep = ""
+			}
+			sb.WriteString(fmt.Sprintf("  (%s, %s, %s, %s)%s\n", leanStr(s.pkg()), leanStr(s.fn()), leanStr(s.key), leanStr(s.kind), sep))
+		}
+		sb.WriteString("]\n\n")
+	}
+	emit("logSites", inScope)
+	sb.WriteString("/-- the same scan over every OTHER package of the module (core, cmd, caddytls, caddypki, logging, …): sites that log\n    request/response/header material outside the HTTP server's access, error and reverse-proxy debug logs -/\n")
+	emit("logSitesElsewhere", elsewhere)
 	sb.WriteString("/-- the typed scan loaded and type-checked every package without error -/\n")
 	sb.WriteString("def logSitesScanComplete : Bool := " + strconv.FormatBool(loadOK && len(pkgs) > 0) + "\n")
 	sb.WriteString(footer)
